@@ -990,10 +990,21 @@ static Verdict run(const Case& c)
          if(!okSolve) break;
          sinceLoad++;
          e.count("updates_applied");
-         if(threw || cs != LU::OK || lu.status() != LU::OK || !(lu.stability() >= 1e-2))
+         // domain of the histories (DESIGN, C10): the pivot |(B^-1 newcol)_idx| is at least 1e-3 |B^-1 newcol|_inf, "the kind of
+         // pivot the ratio tests hand to the factorisation". The generator constructs that in the scaled system; in the
+         // unscaled one a replacement can have element growth ~1e6, after which no update scheme is accurate to the 1e-9
+         // yardstick: the basis code refactorises there (SPxBasisBase::change on stability), and so does the harness
+         bool tinyPivot = false;
+         if(how != U_ETA_NOETA)
+         {
+            double xi = std::fabs((double) x[idx]), xm = 0;
+            for(int i = 0; i < n; i++) xm = std::max(xm, std::fabs((double) x[i]));
+            tinyPivot = !(xi >= 1e-3 * xm);
+         }
+         if(threw || cs != LU::OK || lu.status() != LU::OK || !(lu.stability() >= 1e-2) || tinyPivot)
          {
             e.count(threw ? "refactor_on_instability.change_threw" : cs != LU::OK ? "refactor_on_instability.status" :
-                    "refactor_on_instability.stability");
+                    !(lu.stability() >= 1e-2) ? "refactor_on_instability.stability" : "refactor_on_instability.pivot_below_1e-3_of_column");
             if(!reload("refactor_on_instability")) break;
          }
       }
